@@ -1169,6 +1169,7 @@ def parts(ctx):
         A(dict(name="arr-%s-d2" % nm, profile=(lambda i, e_: lambda e: P.arr_profile(e, i, e_))(i, e_),
                depth=2, shards=8, mid_ops=_not_names("arrite"), top_ops=_not_names("store") if q else None,
                max_new=1))
+    A(dict(name="mixed-d2", profile=lambda e: P.mixed_profile(e, quant=True), depth=2, shards=32, max_new=1))
     A(dict(name="uf-d2", profile=P.uf_profile, depth=2, shards=16))
     A(dict(name="quant-d2", profile=P.quant_profile, depth=2, shards=16, max_new=1 if q else None))
     A(dict(name="edge-d2", profile=edge_profile, depth=2, shards=32,
